@@ -238,6 +238,13 @@ class G19(gen.Gen):
                     if not self.allow_types and st.tmpl.split()[0] in ("common", "dimension", "external"):
                         continue    # not accepted by analyze=True at module level (AttributeError check_private)
                     decls.append(st)
+                for _ in range(r.n(0, 2)):
+                    # access attributes on module entities
+                    e = self.ex("num", 1)
+                    decls.append(S(r.pick(["integer, %s :: %s" % (r.pick(["public", "private"]), self.name(gen.INT_NAMES)),
+                                           "real, parameter, %s :: %s = %s" % (r.pick(["public", "private"]), self.name(gen.NUM_NAMES[:8]), e),
+                                           "real(kind = 8), %s, dimension(3) :: %s" % (r.pick(["public", "private"]), self.name(gen.ARR_NAMES))]),
+                                   "decl"))
                 segs = [(None, decls)]
                 if r.chance(60):
                     inner = []
@@ -334,6 +341,19 @@ def evaluate(case):
         i = next((k for k, (a, b) in enumerate(zip(b1, b2)) if a != b), min(len(b1), len(b2)))
         return Result(False, "second-print-differs:%s" % (b1[i].split()[0].lower() if i < len(b1) else "length"), nontrivial, labels,
                       {"first": b1[i] if i < len(b1) else None, "second": b2[i] if i < len(b2) else None})
+    # analysis must not change what is regenerated: same statements with analyze on and off
+    kw3 = dict(kw)
+    kw3["analyze"] = not case["analyze"]
+    try:
+        b3 = _body(str(api.parse(case["src"], **kw3)))
+    except BaseException:  # noqa: BLE001 - the other setting may not accept the program at all
+        b3 = None
+        labels.append("other-analyze-setting-rejects")
+    if b3 is not None and b3 != b1:
+        i = next((k for k, (a, b) in enumerate(zip(b1, b3)) if a != b), min(len(b1), len(b3)))
+        return Result(False, "analyze-changes-output:%s" % (b1[i].split()[0].lower() if i < len(b1) else "length"), nontrivial, labels,
+                      {"analyze=%s" % case["analyze"]: b1[i] if i < len(b1) else None,
+                       "analyze=%s" % (not case["analyze"]): b3[i] if i < len(b3) else None})
     w1 = [(type(st).__name__, d) for st, d in api.walk(t1)]
     w2 = [(type(st).__name__, d) for st, d in api.walk(t2)]
     if w1 != w2:
